@@ -9,7 +9,7 @@
      overwrite an existing key, otherwise insert);
    - Go panics are not values: [cnf_rec] returns a junk value on the branches
      where cnfRec panics and [cnf_ok] says whether cnfRec runs without
-     panicking (Proofs/Bf.v: it always does on the output of [nnf]);
+     panicking (Proofs/Bf.v, [nnf_cnf_ok]: cnf_ok (nnf f) = true for every f);
    - sqrt(float64(n)) is replaced by the integer square root [N.sqrt]
      (nbLines = int(sqrt+0.5), nbCols = int(ceil(sqrt)); see [nb_lines]). *)
 From Coq Require Import List ZArith NArith Bool String Ascii Arith DecimalString.
@@ -106,7 +106,8 @@ Definition unique_small (vars : list var) : form :=
 (* bf.go:343-344,356  with k = floor(sqrt n) (exact integer square root):
      int(sqrt(n) + 0.5) = k  iff sqrt n < k + 1/2 iff n <= k*k + k ;
      int(ceil(sqrt n))  = k  iff n = k*k.
-   Checked against the float64 code for 5 <= n <= 400 (Proofs/Bf.v). *)
+   Checked against the float64 code for 5 <= n <= 400 (Properties/C12.v,
+   go_sqrt); nbLines * nbCols >= n is [grid_covers] in Proofs/Bf.v. *)
 Definition isqrt (n : nat) : nat := N.to_nat (N.sqrt (N.of_nat n)).
 Definition nb_lines (n : nat) : nat :=
   let k := isqrt n in if (n <=? k * k + k)%nat then k else S k.
@@ -282,7 +283,8 @@ Fixpoint nnfp (neg : bool) (f : form) : form :=
 Definition nnf (f : form) : form := nnfp false f.
 
 (* The literal mirror of the De Morgan cases, with the second pass, on fuel
-   (None = out of fuel).  Proofs/Bf.v: equal to [nnf] when fuel suffices. *)
+   (None = out of fuel).  Proofs/Bf.v, [nnf_go_nnf]: nnf_go k f = Some (nnf f)
+   as soon as k > 2 * depth f. *)
 Fixpoint nnf_go (fuel : nat) (f : form) : option form :=
   match fuel with
   | O => None
@@ -371,7 +373,8 @@ Definition tseitin_var (val : Z) : var :=
 (* v is named like a variable of vars.dummy(): dummy flag and "dummy-..." *)
 Definition tseitin_name (v : var) : bool := vdummy v && prefix "dummy-" (vname v).
 
-(* bf.go:402-406 *)
+(* bf.go:402-406.  The key is never already in the map (Proofs/Bf.v,
+   [new_dummy_spec]), so the assignment is an insertion. *)
 Definition new_dummy (vs : vars) : Z * vars :=
   let val := tbl_len (v_all vs) + 1 in
   (val, Vars (tbl_set (v_all vs) (tseitin_var val) val) (v_pb vs)).
@@ -615,3 +618,30 @@ Fixpoint nodup_str (l : list string) : bool :=
 
 Definition names_distinct (f : form) : bool :=
   nodup_str (map (fun e : var * Z => vname (fst e)) (v_pb (c_vars (as_cnf f)))).
+
+(* the assignment of the names read off a model of the exported problem
+   through the "c name=index" comments *)
+Fixpoint assoc_idx (l : list (string * Z)) (s : string) : option Z :=
+  match l with
+  | [] => None
+  | (k, i) :: r => if String.eqb k s then Some i else assoc_idx r s
+  end.
+
+Definition restrict (d : dimacs) (m : model) (dflt : string -> bool) (s : string) : bool :=
+  match assoc_idx (d_names d) s with Some i => var_val m i | None => dflt s end.
+
+(* nesting depth of a formula: [nnf_go] needs fuel > 2 * depth *)
+Definition maxd (d : form -> nat) (l : list form) : nat :=
+  fold_right (fun x acc => Nat.max (d x) acc) 0%nat l.
+
+Fixpoint depth (f : form) : nat :=
+  match f with
+  | FNot g => S (depth g)
+  | FAnd l => S (maxd depth l)
+  | FOr l => S (maxd depth l)
+  | _ => 1%nat
+  end.
+
+(* a Go map[string]bool as an assignment of the variables (by name) *)
+Definition env_map (m : list (string * bool)) (v : var) : bool :=
+  match assoc_str m (vname v) with Some b => b | None => false end.
